@@ -226,6 +226,8 @@ def gen_strategy(draw, tier):
     else:
         fam = draw(st.sampled_from(["vector", "image", "dict", "tuple", "discrete", "multidiscrete"]))
     spec = {"algo": algo, "obs": fam, "obsv": draw(st.integers(0, 2)), "actv": draw(st.integers(0, 2)), "seed": draw(st.integers(0, 9999))}
+    if algo in ag.SINGLE_CONT + ["PPO"]:
+        spec["share"] = draw(st.booleans())
     if algo in ag.SINGLE_CONT:
         spec["act"] = draw(st.sampled_from(["box", "box_asym"]))
     elif algo == "PPO":
@@ -253,6 +255,6 @@ PROPERTY = Property(
                    shrink_budget={"quick": 60, "thorough": 300}),
     ],
     assumptions=["actor and critic are built from the same net_config, so 'same architecture change' is checked as 'shared fields equal before => equal after'",
-                 "share_encoders=False"],
+                 "share_encoders drawn True/False for PPO/DDPG/TD3"],
     wanted_labels=["mut=arch-method", "mut=param", "mut=act", "mut=hp", "mut=None"],
 )
